@@ -93,7 +93,8 @@ Inductive step :=
 | SLocal (p : N) (idx : list N) (hs : list N)                    (* p commits universe change(s) idx *)
 | SDrop (p q : N)                                                (* both channels between p and q lose everything *)
 | SNewState (p q : N) (mode : N) (st : ss_obs)                   (* p's state for q: 0 new, 1 decode(encode), 2 new_read_only *)
-| SSetRO (p q : N) (ro : bool) (st : ss_obs).                    (* p's state for q: set_read_only *)
+| SSetRO (p q : N) (ro : bool) (st : ss_obs)                     (* p's state for q: set_read_only *)
+| SLoseDoc (p : N).                                              (* p restarts with an empty document (data loss) *)
 
 Definition link := (N * N)%type.
 Definition link_eqb (a b : link) : bool := (fst a =? fst b) && (snd a =? snd b).
@@ -174,6 +175,7 @@ Definition do_step (u : list change) (w : world) (s : step) : option world * N :
   | SSetRO p q ro st =>
     let s' := set_read_only (state_of w p q) ro in
     (Some (set_state w p q s'), ss_diag s' st)
+  | SLoseDoc p => (Some (set_doc w p empty_doc), 0)
   end.
 
 (* first disagreement: (step number, code); (0,0) = none *)
